@@ -9,7 +9,7 @@ from liquid import CachingDictLoader, Environment
 from liquid import context as ctxmod
 from liquid.exceptions import LiquidError, ResourceLimitError
 
-from vf.hx import excluded, finish
+from vf.hx import cint, excluded, finish, untraced
 
 PROPERTY = "C08"
 
@@ -43,6 +43,9 @@ SKEL = {
     "include_for": "{% include 'p' for xs %}{% for i in ys %}{% include 'p', v: i %}{% endfor %}",
     "extends": "{% extends 'base' %}{% block b %}{{ block.super }}{% for j in ys %}c{% endfor %}{% endblock %}",
     "ifchanged_cycle": "{% for i in xs %}{% ifchanged %}{{ v }}{% endifchanged %}{% cycle 'a', 'b' %}{% endfor %}",
+    "capture_unused": "{{ v }}{% capture c %}{% for i in xs %}{{ v }}{% endfor %}abc{% endcapture %}{% if m > 5 %}{{ c }}{% endif %}",
+    "ifchanged_unused": "{{ v }}{% for i in ys %}{% ifchanged %}{% endifchanged %}{% capture d %}{{ v }}{{ i }}{% endcapture %}{% endfor %}",
+    "super_unused": "{% extends 'base' %}{% block b %}{% capture s %}{{ block.super }}{{ v }}{% endcapture %}z{% endblock %}",
     "macro_loop": "{% macro f, q %}{% for j in ys %}{{ q }}{% endfor %}{% endmacro %}{% for i in xs %}{% call f, i %}{% endfor %}",
 }
 T = {k: ENV.from_string(v) for k, v in SKEL.items()}
@@ -116,7 +119,7 @@ def _mk(kind, skel):
 
 CONDITIONS = []
 _QUICK = {("loop", "nested_loops"), ("loop", "tablerow_loop"), ("loop", "render_for_loop"), ("loop", "macro_loop"), ("loop", "include_for"),
-          ("output", "capture_loop"), ("output", "nested_loops"), ("output", "include_rec"), ("output", "extends"), ("output", "ifchanged_cycle"),
+          ("output", "capture_loop"), ("output", "capture_unused"), ("output", "ifchanged_unused"), ("output", "super_unused"), ("output", "nested_loops"), ("output", "include_rec"), ("output", "extends"), ("output", "ifchanged_cycle"),
           ("namespace", "assigns"), ("namespace", "capture_loop"), ("namespace", "render_rec"), ("namespace", "include_rec"),
           ("depth", "include_rec"), ("depth", "render_rec"), ("depth", "nested_loops"), ("depth", "extends"), ("depth", "macro_loop")}
 for _kind in KINDS:
@@ -167,6 +170,11 @@ def c08_block_nesting(d: int, kind: int, L1: int, L2: int) -> bool:
     """
     if excluded("c08_block_nesting", locals()):
         return True
+    d, kind, L1, L2 = cint(d, 0, 5), cint(kind, 0, 2), cint(L1, 0, 14), cint(L2, 0, 14)
+    return finish(untraced(lambda: _nesting_case(d, kind, L1, L2)))
+
+
+def _nesting_case(d, kind, L1, L2):
     src = nest_src(d, kind)
     full = brun(src, 1000)
     r1 = brun(src, L1)
@@ -174,7 +182,7 @@ def c08_block_nesting(d: int, kind: int, L1: int, L2: int) -> bool:
     ok = (r1 == full or r1[0] == "limit") and (r2 == full or r2[0] == "limit")
     if r1[0] == "ok":
         ok = ok and r2 == r1
-    return finish(ok and full == ("ok", "x"))
+    return ok and full == ("ok", "x")
 
 
 CONDITIONS.append({"fn": "c08_block_nesting", "quick": 90, "thorough": 300, "sel_only": True})
